@@ -70,6 +70,17 @@ def record(job):
         ev["unq"] = pred(t.is_unquoted_string)
         ev["pn"] = pred(t.is_parameter_name)
         ev["sv"] = pred(t.is_simple_value)
+
+        def decodes(f):
+            try:
+                f(t)
+                return True
+            except Exception:
+                return False
+        ev["dq"] = decodes(dec.decode_quoted_string)
+        ev["dnd"] = decodes(dec.decode_non_decimal)
+        ev["ddec"] = decodes(dec.decode_decimal)
+        ev["ddt"] = decodes(dec.decode_datetime)
         try:
             v = dec.decode_simple_value(t)
             ev["decoded"] = tag(v)
